@@ -287,11 +287,13 @@ def summarize(records, tier, seed):
         extra_viol = [{"keyset": list(k), "modes": sorted(set(v)), "runs": len(v)} for k, v in keysets.items()]
     nt_runs = set()
     for r in runs:
-        if r.get("status") == "ok" and r["case"]["spec"]["noise"]["mode"] != "det" and (r.get("n_history") or 0) >= 4:
+        if r.get("status") == "ok" and "incumbent-swapped-to-earlier-iterate" in (r.get("flags") or []):
             nt_runs.add(C.sig_of(r["case"]))
     extra = {"events_checked": cnt, "run_status": C.status_hist(runs), "distinct_result_key_sets": len(keysets),
              "result_key_sets": [{"n_keys": len(k), "runs": len(v), "modes": sorted(set(v))} for k, v in keysets.items()],
              "declared_but_never_populated": sorted(set(["x", "x0", "success", "status", "message", "fun", "func_count", "iterations", "target_type", "problem_type", "mesh_size", "non_box_cons", "yval_vec", "ysd_vec", "fval", "fsd", "total_time", "overhead", "random_seed", "algorithm", "version"]) - set(next(iter(keysets), ()))),
+             "runs_with_incumbent_swapped_to_earlier_iterate": sum(1 for r in runs if "incumbent-swapped-to-earlier-iterate" in (r.get("flags") or [])),
+             "incumbent_swaps_total": C.count_sum(records, "incumbent_swaps"),
              "container_sequences": sum(r["sequences"] for r in cont), "container_ops": sum(r["ops"] for r in cont),
              "aborts_by_other_defects": C.other_property_aborts(runs, "C19")}
     if extra_viol:
